@@ -34,15 +34,21 @@ def _divides(fs, n):
   return all(int(f) != 0 and n % int(f) == 0 for f in fs)
 
 
+LAST = {'reported': False, 'recorded': False}
+
+
 def case_helper(fn, n, params):
   w = world.load()
   R, S = w.rsa_util, w.special_case_factoring
   out = []
   composite = n > 3 and not nt.is_prime(n)
 
+  LAST['reported'] = False
+
   def chk(name, res, want_product=True, want_proper=False):
     if res is None or len(res) == 0:
       return
+    LAST['reported'] = True
     fs = [int(f) for f in res]
     if not _divides(fs, n):
       out.append('%s(%d, %r) = %r: not all values divide n' % (name, n, params, fs))
@@ -129,7 +135,7 @@ def helpers(lo, hi):
     for fn, params_list in plist:
       for params in params_list:
         bad = case_helper(fn, n, list(params))
-        r.ev(fn, True)
+        r.ev('%s/%s' % (fn, 'factors' if LAST['reported'] else 'none'), LAST['reported'])
         for b in bad:
           r.violation(b, {'fn': 'helper', 'args': {'fn': fn, 'n': n, 'params': list(params)}})
     if len(r.violations) > 20:
@@ -143,7 +149,7 @@ def guesses(lo, hi):
   for n in range(lo, hi):
     for p0 in range(1, n + 1):
       bad = case_helper('FactorWithGuess', n, [p0])
-      r.ev('FactorWithGuess', True)
+      r.ev('FactorWithGuess/%s' % ('factors' if LAST['reported'] else 'none'), LAST['reported'])
       for b in bad:
         r.violation(b, {'fn': 'helper', 'args': {'fn': 'FactorWithGuess', 'n': n,
                                                  'params': [p0]}})
@@ -268,6 +274,8 @@ def case_check(check, names):
     st, ret = guarded(obj.Check, keys)
   if st == 'exc':
     return ['%s.Check(%s) raised %s' % (check, names, ret)]
+  LAST['recorded'] = any(art.factors(k.test_info, nm) is not None for k in keys
+                         for nm in ('N_FACTORS', 'N-1_FACTORS'))
   return _oracle(keys, ns, '%s on batch %s' % (check, names))
 
 
@@ -301,8 +309,8 @@ def checks(check, kind, thorough):
   for names in batches:
     if check not in ('CheckAllRSA', 'CheckLowHammingWeight') or True:
       bad = case_check(check, names)
-    # non-trivial iff something was recorded: re-derive cheaply from the violation-free run
-    r.ev('%s/%s' % (check.split('[')[0], kind), True)
+    r.ev('%s/%s/%s' % (check.split('[')[0], kind, 'recorded' if LAST['recorded'] else 'none'),
+         LAST['recorded'])
     for b in bad[:2]:
       key = None
       if b.endswith('[n divides the product of several other moduli]') and \
